@@ -97,6 +97,8 @@ pub struct GenCfg {
     pub twin: bool,
     pub final_drop_pct: u32,
     pub max_txn_body: usize,
+    /// largest Append payload (default 4; the large-vectors phase goes past imbl's 64-item chunk)
+    pub max_append: usize,
 }
 
 impl Default for GenCfg {
@@ -121,6 +123,7 @@ impl Default for GenCfg {
             twin: false,
             final_drop_pct: 50,
             max_txn_body: 6,
+            max_append: 4,
         }
     }
 }
@@ -139,9 +142,14 @@ fn dec() -> impl Strategy<Value = Dec> {
     ]
 }
 
-pub fn vop(oob: bool, traversal: bool) -> BoxedStrategy<VOp> {
+pub fn vop(oob: bool, traversal: bool, max_append: usize) -> BoxedStrategy<VOp> {
+    let append = if max_append > 4 {
+        prop_oneof![3 => vec(key(), 0..=4), 1 => vec(key(), 0..=max_append), 1 => vec(key(), 60..=max_append.max(70))].boxed()
+    } else {
+        vec(key(), 0..=4).boxed()
+    };
     let mut alts: Vec<(u32, BoxedStrategy<VOp>)> = vec![
-        (2, vec(key(), 0..=4).prop_map(VOp::Append).boxed()),
+        (2, append.prop_map(VOp::Append).boxed()),
         (1, Just(VOp::Clear).boxed()),
         (3, key().prop_map(VOp::PushFront).boxed()),
         (3, key().prop_map(VOp::PushBack).boxed()),
@@ -219,11 +227,11 @@ pub fn subspec(cfg: &GenCfg) -> BoxedStrategy<SubSpec> {
 fn top(cfg: &GenCfg) -> BoxedStrategy<Op> {
     let mut alts: Vec<(u32, BoxedStrategy<Op>)> = vec![];
     if cfg.w_vop > 0 {
-        alts.push((cfg.w_vop, vop(cfg.oob, cfg.traversal).prop_map(Op::V).boxed()));
+        alts.push((cfg.w_vop, vop(cfg.oob, cfg.traversal, cfg.max_append).prop_map(Op::V).boxed()));
     }
     if cfg.w_txn > 0 {
         let t = prop_oneof![
-            16 => vop(cfg.oob, cfg.traversal).prop_map(TOp::V),
+            16 => vop(cfg.oob, cfg.traversal, cfg.max_append).prop_map(TOp::V),
             2 => Just(TOp::Rollback),
             1 => any::<u8>().prop_map(TOp::DropSub),
             1 => any::<u8>().prop_map(TOp::Poll),
